@@ -196,6 +196,19 @@ func interleave(ms []*coMachine, r *rng.R) (switches int) {
 
 func detCase(seed uint64, idx int) (*gen.Case, mach.Config) {
 	var c *gen.Case
+	if idx%7 == 6 {
+		c = gen.ReuseTrap(seed)
+		r := rng.New(rng.Derive(seed, 0xC08))
+		v := allVariants[(idx/7)%len(allVariants)]
+		cfg := configFor(v, idx, r)
+		if cfg.EU > 0 && cfg.EU < 3 {
+			cfg.EU = 3
+		}
+		if cfg.Cores > 0 && cfg.Cores < 3 {
+			cfg.Cores = 3
+		}
+		return c, cfg
+	}
 	switch idx % 3 {
 	case 0:
 		c = gen.RegPressure(seed)
